@@ -232,7 +232,7 @@ class Driver(object):
 
 
 def canon(x):
-    return json.dumps(x, sort_keys=True, separators=(",", ":"))
+    return json.dumps(x, sort_keys=True, separators=(",", ":"), default=_json_int)
 
 
 def load_known():
@@ -298,7 +298,7 @@ def write_replay(prop, name, payload):
     d = os.path.join(VERIF, "replays")
     os.makedirs(d, exist_ok=True)
     p = os.path.join(d, "%s_%s.json" % (prop, name))
-    json.dump(payload, open(p, "w"), indent=1, sort_keys=True, default=str)
+    json.dump(payload, open(p, "w"), indent=1, sort_keys=True, default=lambda o: int(o.__index__()) if hasattr(o, "__index__") else str(o))
     return os.path.relpath(p, VERIF)
 
 
